@@ -795,7 +795,7 @@ func selectCase(e *Env, col *Collector, d *Driver, bs, i int, idx uint64) error 
 				Class: selMech(where, chunk), Seed: e.Seed, Index: idx, Properties: []string{"C01"}})
 		case !okShape || got != want:
 			col.Find(Finding{Kind: "property", Group: "SELECT", Check: "select-rows", Case: caseStr + " mode=" + mode, Line: pl, Engine: "rows " + got, Model: "rows " + want,
-				Class: selMech(where, chunk), Seed: e.Seed, Index: idx, Properties: []string{"C01"}})
+				Class: selMech(where, chunk), Seed: e.Seed, Index: idx, Properties: selProps(res)})
 		}
 		if st.Dump() != dumpOf(kvs) {
 			col.Find(Finding{Kind: "property", Group: "SELECT", Check: "select-changed-the-store", Case: caseStr + " mode=" + mode, Line: pl, Engine: st.Dump(), Model: dumpOf(kvs), Seed: e.Seed, Index: idx, Properties: []string{"C01", "C13"}})
@@ -964,7 +964,7 @@ func selectDirectCase(e *Env, col *Collector, bs, i int, idx uint64, r *Rand) er
 				Seed: e.Seed, Index: idx, Properties: []string{"C01", "C06"}})
 		case out != "ok" || !okShape || got != want:
 			col.Find(Finding{Kind: "property", Group: "SELECT", Check: "select-rows-direct", Case: caseStr + " mode=" + mode, Line: pl, Engine: out + " rows " + got, Model: "ok rows " + want + " (byte comparisons on the literals as written)",
-				Seed: e.Seed, Index: idx, Properties: []string{"C01"}})
+				Seed: e.Seed, Index: idx, Properties: selProps(res)})
 		}
 	}
 	return nil
@@ -975,4 +975,19 @@ func selectDirectCase(e *Env, col *Collector, bs, i int, idx uint64, r *Rand) er
 // root operator / function of the expression, enough to group findings
 func selMech(e kvql.Expression, _ []kvql.KVPair) string {
 	return mechLabel(e)
+}
+
+// selProps: wrong rows violate C01; when the plan is not a full scan they are also the planner's
+// narrowed access path disagreeing with "a full scan filtered pair by pair" (C02)
+func selProps(res *RunResult) []string {
+	narrowed := false
+	for _, l := range res.Explain {
+		if strings.Contains(l, "PrefixScanPlan{") || strings.Contains(l, "RangeScanPlan{") || strings.Contains(l, "MultiGetPlan{") || strings.Contains(l, "EmptyResultPlan") {
+			narrowed = true
+		}
+	}
+	if narrowed {
+		return []string{"C01", "C02"}
+	}
+	return []string{"C01"}
 }
